@@ -524,3 +524,47 @@ func hDescribe(e Expr) string {
 	}
 	return "?"
 }
+
+// vK04aKeys: computed property keys of object literals and class members.
+// Evaluating a computed key runs the key expression and then ToPropertyKey on
+// its value; an unused object / class whose key expression may have an effect
+// (or may be an object, whose toString runs) is not removable.
+func vK04aKeys() {
+	ctx := MakeHelperContext(hIsUnbound)
+	key := hGen4(vParam("KEYDEPTH", 1))
+	keyEffect := hMayEffect(key, false) || hMayBeObjectOrSymbol(key)
+	if d, ok := key.Data.(*EDot); ok && d.IsSymbolInstance {
+		keyEffect = hMayEffect(key, false)
+	}
+	var removable bool
+	switch vChoose(5) {
+	case 0:
+		e := Expr{Data: &EObject{Properties: []Property{{Flags: PropertyIsComputed, Key: key, ValueOrNil: Expr{Data: &ENumber{Value: 1}}}}}}
+		removable = ctx.ExprCanBeRemovedIfUnused(e)
+	case 1: // method
+		fn := Expr{Data: &EFunction{}}
+		flags := PropertyIsComputed
+		if vBool() {
+			flags |= PropertyIsStatic
+		}
+		removable = ctx.ClassCanBeRemovedIfUnused(Class{Properties: []Property{{Kind: PropertyMethod, Flags: flags, Key: key, ValueOrNil: fn}}})
+	case 2: // field
+		flags := PropertyIsComputed
+		if vBool() {
+			flags |= PropertyIsStatic
+		}
+		removable = ctx.ClassCanBeRemovedIfUnused(Class{Properties: []Property{{Kind: PropertyField, Flags: flags, Key: key, InitializerOrNil: Expr{Data: &ENumber{Value: 1}}}}})
+	case 3: // getter / setter
+		fn := Expr{Data: &EFunction{}}
+		kind := []PropertyKind{PropertyGetter, PropertySetter}[vChoose(2)]
+		removable = ctx.ClassCanBeRemovedIfUnused(Class{Properties: []Property{{Kind: kind, Flags: PropertyIsComputed, Key: key, ValueOrNil: fn}}})
+	case 4: // class expression through the expression entry point
+		fn := Expr{Data: &EFunction{}}
+		e := Expr{Data: &EClass{Class: Class{Properties: []Property{{Kind: PropertyMethod, Flags: PropertyIsComputed, Key: key, ValueOrNil: fn}}}}}
+		removable = ctx.ExprCanBeRemovedIfUnused(e)
+	}
+	if removable {
+		vAssert(!keyEffect, "an object literal / class reported removable has no computed key whose evaluation or ToPropertyKey conversion can have an effect")
+	}
+	vReach("end")
+}
